@@ -2,3 +2,4 @@ import Dicom.Props.C20
 #print axioms Dicom.C20.noninterference
 #print axioms Dicom.C20.failure_is_local
 #print axioms Dicom.C20.msg_ids_unique
+#print axioms Dicom.C20.msg_ids_nodup
